@@ -67,6 +67,9 @@ def _post(lines, verdicts):
             "Session::prepare cases": (sum(1 for l in lines if l.startswith("P ")), n // 40),
             "Session::prepare second rounds": (sum(1 for l in lines if l.startswith("P ") and l.split("|")[-1].count("@") > len(l.split()[1])), n // 400),
             "mixed-extension clusters": (sum(1 for l in lines if l.startswith("H ") and len(l.split()[1]) > 1), n // 40),
+            "Session::prepare id mismatches": (obs.count("/e:mismatch"), n // 400),
+            "Session::prepare all-failed": (obs.count("/e:allfailed"), n // 600),
+            "Session::prepare cases judged": (sum(1 for l, v in zip(lines, verdicts) if l.startswith("P ") and v == "ok"), n // 60),
             "known-finding histories": (sum(1 for v in verdicts if v and "class=stale-cached-metadata-without-ext" in v), 1),
         }
         for what, (got, want) in floors.items():
@@ -83,16 +86,17 @@ SPEC = {
     "search_n": 10000,
     "runner_timeout": 3000,
     "rule": ("one case = one seeded history against a fresh mock cluster (1-3 nodes, with/without the metadata-id "
-             "extension, a fifth of the multi-node clusters MIXED, 1-3 prepared statements with 2-4 schema versions each) and a real Session: 4-15 ops out of "
+             "extension, a fifth of the multi-node clusters MIXED, 1-3 prepared statements with 2-4 schema versions each) and a real Session: 4-15 ops (client calls, node events, forced answers, concurrency markers; about 5.7 client calls per history) out of "
              "execute / single-page execute / execute_iter (pager, 1-3 pages) / batch / pairs of CONCURRENT executes on two nodes (random node, use_cached_result_metadata, consistency, serial "
              "consistency, timestamp, page size, paging state) and node events {evicted, schema-changed, prepared, "
-             "id-changing}; a quarter of the histories additionally force arbitrary (ill-behaved) answers. "
+             "id-changing}; about a sixth of the histories additionally force arbitrary (ill-behaved) answers. "
              "1/12 of the cases are Session::prepare cases (kind P: nodes at different schema versions / id salts / with forced errors before the prepare; both rounds of prepare_nongeneric recorded). non-trivial = the history contains at least one client call; distinct = distinct case lines"),
     "nontrivial": lambda ln: ln.startswith("P ") or any(t[:2] in ("X/", "B/", "I/") for t in ln.split("|")[0].split()),
     "trusted_base": [
         "mocknode (scripted CQL v4 server, own codec) and the runner's handler implementing the specification node; "
-        "the Coq specification system re-computes every answer of the handler and the acceptor rejects a history in "
-        "which they differ",
+        "on unforced, sequential histories (and on kind-P cases without a forced answer) the Coq specification node "
+        "re-computes every answer of the handler and the acceptor rejects a history in which they differ; forced and "
+        "concurrent histories are only compared with the generic system (any server)",
         "the runner's decoding of the caller's view (column specs, rows through ColumnIterator, typed Row decoding)",
         "node_answer (Coq) is the transcription of the CQL v4 EXECUTE/PREPARE/BATCH rules and of ScyllaDB's "
         "SCYLLA_USE_METADATA_ID extension (metadata id presented in EXECUTE, METADATA_CHANGED + new id in Rows)",
@@ -101,8 +105,14 @@ SPEC = {
         "messages are modelled after frame parsing (codec = C08/C09); load / compare / store of the shared cell inside "
         "handle_result_metadata_new_id and reprepare are one atomic step of the interleaving model",
         "C14_faithful premises: the metadata id determines the columns, ids are non-empty, distinct statements have "
-        "distinct ids and texts; it is stated for calls outside the known-finding class F17 (no extension and "
-        "use_cached_result_metadata on), for which C14_faithful_refuted gives the counterexample",
+        "distinct ids and texts; it is stated for calls outside the QUADRANT (no extension and "
+        "use_cached_result_metadata on), which is larger than the known-finding class F17 (quadrant AND a "
+        "re-preparation announced other columns); C14_faithful_refuted is the counterexample inside the class; for the "
+        "rest of the quadrant only C14_announced_in_quadrant (nothing is stored, rows without metadata are decoded with "
+        "the columns of preparation; all connections without the extension) is proved",
+        "environment: only session / mock-cluster start failures, exec:* request errors (timeout, empty plan, pool), "
+        "routing to an unexpected node and incomplete PREPARE rounds are counted not-run (cap max(3, 1%)); a runner "
+        "panic, a malformed case, lost pager rows are errors / violations",
         "concurrent callers in the tie: pairs of calls on different nodes sharing one PreparedStatement; the acceptor searches the interleavings of their client-side steps (g_par)",
     ],
     "extra_coverage": _extra,
